@@ -52,6 +52,9 @@ def rand_string(r):
     if r.random() < 0.04:      # long text with many repeated lines
         n = r.choice([52, 70, 120])
         return "".join(r.choice(["", "", "aa", "....", "x = 1", "line %d" % r.randrange(5)]) + "\n" for _ in range(n))
+    if r.random() < 0.06:      # a few LONG lines (prose, minified code): their inline character diffs have many entries
+        words = ["alpha", "beta", "gamma", "delta", "x=1;", "foo(bar)", "lorem", "ipsum", "0123456789", "the", "quick"]
+        return "".join(" ".join(r.choice(words) for _ in range(r.randrange(8, 16))) + "\n" for _ in range(r.randrange(1, 5)))
     n = r.randrange(0, 6)
     parts = []
     for _ in range(n):
@@ -108,6 +111,24 @@ def rand_edit(r, v, depth=0):
             else:
                 dup = [i for i in range(1, len(lines)) if lines[i] == lines[i - 1]]
                 del lines[r.choice(dup) if dup else k]
+            return "".join(lines)
+        longs = [i for i, ln in enumerate(lines) if len(ln) >= 40]
+        if longs and c < 0.75:
+            # many scattered one-character edits in one long line (it still resembles its old self), and possibly new
+            # lines directly above and/or below it
+            k = r.choice(longs)
+            step = r.choice([3, 4, 5, 7])
+            ln = lines[k]
+            body, end = ln.rstrip("\n"), ln[len(ln.rstrip("\n")):]
+            chars = list(body)
+            for i in range(r.randrange(step), len(chars), step):
+                chars[i] = r.choice("XYZ_")
+            lines[k] = "".join(chars) + end
+            if r.random() < 0.6:
+                lines[k:k] = ["inserted %d\n" % j for j in range(r.choice([1, 1, 2]))]
+                k += 1
+            if r.random() < 0.3:
+                lines.insert(k + 1, "appended below\n")
             return "".join(lines)
         if not lines or c < 0.3:
             lines.insert(r.randrange(len(lines) + 1), "new" + r.choice(SEPS))
